@@ -230,7 +230,7 @@ fn run_node(ctx: &mut Ctx, api: &Api, words: &[u32]) -> usize {
                 }
             } else if g != want {
                 ctx.viol(format!("{:?} stream={}{}", api, ws(words), kind()), "result is not the specified function of the RNG stream", args(), want.to_hex(), g.to_hex());
-            } else if consumed != m.pos {
+            } else if consumed != m.pos && pinned {
                 ctx.viol(format!("words-consumed {:?} stream={}{}", api, ws(words), kind()), "number of RNG words consumed differs from the specification", args(), format!("{}", m.pos), format!("{}", consumed));
             }
             // range clause, independent of the model value
